@@ -156,4 +156,42 @@ def parseImpl : List String → Option Impl
 
 def modelOut (cs : Case) : S := runSettled cs.cfg (init cs.ar cs.aq) cs.sched
 
+/-- read an implementation trace token back into an event (`none` = not a token of the protocol) -/
+def parseEv (t : String) : Option Ev :=
+  match t.splitOn ":" with
+  | ["dh", st, e] => do pure (.dh (← st.toNat?) (← b01 e))
+  | ["dd", e] => do pure (.dd (← b01 e))
+  | ["dt"] => some .dt
+  | ["dr"] => some .dr
+  | ["un", k] => do pure (.un (← k.toNat?))
+  | ["uf", k, f] => do
+    let f ← if f == "o" then some PoolFail.overflow else if f == "c" then some PoolFail.connfail else none
+    pure (.uf (← k.toNat?) f)
+  | ["uh", k, e] => do pure (.uh (← k.toNat?) (← b01 e))
+  | ["ud", k, e] => do pure (.ud (← k.toNat?) (← b01 e))
+  | ["ut", k] => do pure (.ut (← k.toNat?))
+  | ["ur", k] => do pure (.ur (← k.toNat?))
+  | ["log", code, fl] => do
+    let fl ← fl.toList.foldlM (fun acc ch => (hexVal ch).map (fun v => acc * 16 + v)) 0
+    pure (.log (← code.toNat?) fl)
+  | _ => none
+
+def implTrace (i : Impl) : Option (List Ev) := i.trace.mapM parseEv
+
+def isClientGone : Label → Bool
+  | .downReset _ => true
+  | .connClose => true
+  | _ => false
+
+/-- schedule positions: is there a `GT` after the request was started -/
+def timeoutAfterStart : List Label → Bool
+  | [] => false
+  | .work :: r => r.any (fun l => match l with | .globalFire => true | _ => false)
+  | _ :: r => timeoutAfterStart r
+
+def isAttempt : Ev → Bool
+  | .un _ => true
+  | .uf _ _ => true
+  | _ => false
+
 end MosnVerif.Drive.Downstream
